@@ -455,7 +455,11 @@ func _json(args ...interface{}) (interface{}, interface{}) {
 	if len(result) < 1 {
 		return args[0], false
 	}
-	return args[0], result[0]
+	if len(result) == 1 {
+		return args[0], result[0]
+	}
+	// Several matches (wildcard, recursive descent): any-match like a path on the record
+	return args[0], result
 }
 
 func xml(args ...interface{}) (interface{}, interface{}) {
